@@ -260,7 +260,8 @@ def _expression(expr):
             if isinstance(b, (int, np.integer)):
                 b = float(b)
 
-            return np.prod([a, np.power(b, -1)], axis=0)
+            # divide directly: multiplying by the inverse overflows for subnormal divisors
+            return np.true_divide(a, b)
 
     if isinstance(expr, blackbirdParser.PowerLabelContext):
         a, b = expr.expression()
